@@ -346,6 +346,35 @@ def _lifecycle_case(ev, w, plan, sib=0):
             if raw is None or json.loads(raw) != {"y": w}:
                 problems.append(("document file after clear()/reset() and a write through the second handle", raw))
             return (not problems), problems
+        if ev == 6:
+            # a TRANSIENT I/O fault while the job directory is created on the first document access of a handle to a new job (quota, a
+            # briefly read-only workspace); once the fault is gone the same handle is used again: the document is a usable persistent dict
+            from vflib.hutil import FaultPlan
+            import errno as _errno
+            fresh = s.pr["/p"].open_job({"a": 7})
+            s.fs.hook = FaultPlan(3, 0, err=[_errno.EIO, _errno.ENOSPC][w], only=lambda name, args: name in ("mkdir", "makedirs"))
+            failed = False
+            try:
+                fresh.document["x"] = 1
+            except OSError:
+                failed = True
+            s.fs.hook = None
+            ctx = None
+            if plan:
+                ctx = signac.buffered()
+                ctx.__enter__()
+            try:
+                fresh.document["y"] = w
+                inside = dict(fresh.document())
+                if ctx:
+                    ctx.__exit__(None, None, None)
+                raw = s.fs.get(fresh.path + "/signac_job_document.json")
+                want_doc = {"y": w} if failed else {"x": 1, "y": w}
+                if inside != want_doc or raw is None or json.loads(raw) != want_doc:
+                    problems.append(("document after a transient fault on first access", inside, raw, failed))
+            except Exception as e:  # noqa
+                problems.append(("after a transient fault on first access the document is unusable", type(e).__name__, str(e)[:80]))
+            return (not problems), problems
         if ev == 5:
             # the job is removed through ANOTHER handle, then remove() is called on this (initialised, document not yet used) handle
             # as well - a no-op - and then its document is written: the job is re-created and the document is exactly the write
@@ -410,10 +439,10 @@ def _lifecycle_case(ev, w, plan, sib=0):
 
 
 def h_lifecycle(ev: int, w: int, plan: int, sib: int):
-    assert 0 <= ev <= 5 and 0 <= w <= 1 and 0 <= plan <= 1 and 0 <= sib <= 2 and (ev != 2 or not sib) and (sib < 2 or (ev == 0 and plan == 0))
+    assert 0 <= ev <= 6 and 0 <= w <= 1 and 0 <= plan <= 1 and 0 <= sib <= 2 and (ev != 2 or not sib) and (sib < 2 or (ev == 0 and plan == 0))
     assert not (ev in (1, 2) and plan == 1)  # a state point change inside a buffered block is not a document operation (outside the claim; see DESIGN §6)
     fresh_path()
-    ev, w, plan, sib = ci(ev, 0, 5), ci(w, 0, 1), ci(plan, 0, 1), ci(sib, 0, 2)
+    ev, w, plan, sib = ci(ev, 0, 6), ci(w, 0, 1), ci(plan, 0, 1), ci(sib, 0, 2)
     with nt():
         r = _lifecycle_case(ev, w, plan, sib)
     reached()
